@@ -372,6 +372,7 @@ func checkC17(p *Program, r *Reporter) {
 	if nUses == 0 {
 		r.Broken("no file name built from the segment's sequence number found in the upload handler")
 	}
+	trackPathRule(p, r)
 	// (e) ownership and arithmetic
 	e2 := sharedE2(p)
 	r.Rule("E2-OWNER", "timeline generator, counters and track buffers: touched by the channel goroutine only, or under its mutex", 0)
@@ -398,4 +399,53 @@ func checkC17(p *Program, r *Reporter) {
 	}
 	r.Rule("E3-A", "channel goroutine: divisors proven non-zero for every upload", 4)
 	e.classA("E3-A", fns)
+}
+
+// valueReadsFieldDeep: the function-local slice of v (closure variables and their bindings included) loads the field.
+func valueReadsFieldDeep(p *Program, v ssa.Value, field string) bool {
+	q := newDepQueryLocal(p, onField(field))
+	q.intra = true
+	return q.depends(v, 0)
+}
+
+// trackPathRule: per-segment files of the upload handler live in the directory of the segment's track.
+func trackPathRule(p *Program, r *Reporter) {
+// media files are stored under their track: every file the upload handler creates, removes or renames to,
+// whose name is built from the segment's sequence number, is also built from the track directory
+r.Rule("E4-TRACKPATH", "files named after a segment number live in the directory of the segment's track", 1)
+nPaths := 0
+for _, fn := range pkgFuncs(p, pkgRecv) {
+	if !strings.Contains(shortFn(fn), "SegmentHandlerFunc") {
+		continue
+	}
+	for _, b := range fn.Blocks {
+		for _, in := range b.Instrs {
+			c, ok := in.(*ssa.Call)
+			if !ok || c.Call.StaticCallee() == nil {
+				continue
+			}
+			var paths []ssa.Value
+			switch c.Call.StaticCallee().String() {
+			case "os.Create", "os.Remove", "os.OpenFile", "os.WriteFile":
+				paths = []ssa.Value{c.Call.Args[0]}
+			case "os.Rename":
+				paths = []ssa.Value{c.Call.Args[0], c.Call.Args[1]}
+			default:
+				continue
+			}
+			for i, pv := range paths {
+				if !valueReadsFieldDeep(p, pv, "recv.recSegData.seqNr") {
+					continue // not a per-segment file (MPD, init, raw data)
+				}
+				nPaths++
+				okT := valueReadsFieldDeep(p, pv, "recv.stream.trDir")
+				r.Decide(okT, "E4-TRACKPATH", shortFn(fn), fmt.Sprintf("path:%s#%d", c.Call.StaticCallee().Name(), i), p.pos(c.Pos()), "the path is built from the track directory",
+					"a file named after the segment number is not placed in the track's directory: two tracks of a channel that upload the same number use the same file", nil)
+			}
+		}
+	}
+}
+if nPaths == 0 {
+	r.Broken("no per-segment file path found in the upload handler")
+}
 }
